@@ -106,7 +106,14 @@ func genKqFD(prop string, seed uint64, run int, tier string) *Scenario {
 	if g.chance(0.4) {
 		// sequential
 		sc.Cfg.Lagfree = true
-		sc.Tasks = []TaskScript{{Name: "seq", Role: "world", Ops: interleave(g, w, c)}}
+		ops := interleave(g, w, c)
+		if g.chance(0.3) {
+			// a watched directory is changed and renamed away in one breath (one kevent
+			// carries NOTE_WRITE and NOTE_RENAME), and nothing takes its place
+			d := dirs[g.r.Intn(len(dirs))]
+			ops = append(ops, Op{K: OpCreate, P: d + "/nq", NQ: true}, Op{K: OpRename, P: d, P2: "out/nqgone"})
+		}
+		sc.Tasks = []TaskScript{{Name: "seq", Role: "world", Ops: ops}}
 	} else {
 		sc.Tasks = []TaskScript{{Name: "world0", Role: "world", Ops: w}, {Name: "client0", Role: "client", Ops: c}}
 	}
